@@ -80,6 +80,7 @@ def run(ctx):
     ctx.floor("R-C17-2", 20)
     ctx.floor("R-C17-3", 30 + 5 + 1)
     ctx.floor("R-C17-4", 1)
+    ctx.floor("R-C17-5", 1)
     ctx.floor("R-C17-6", 10)
 
 
@@ -355,9 +356,19 @@ def rule_vlq(ctx, rci):
 
 
 def rule_bpm_assignment(ctx, rci):
-    fm = ctx.repo.find_method(rci, "MIDI_to_Composition")
-    assigns = [n for n in ast.walk(fm.node) if isinstance(n, ast.Name) and n.id == "bpm" and isinstance(n.ctx, ast.Store)]
-    top = [st for st in fm.body if isinstance(st, ast.Assign) and any(isinstance(t, ast.Name) and t.id == "bpm" for t in st.targets)]
-    if assigns and not top:
-        ctx.note("R-C17-5", "bpm is assigned only in the tempo arm of MIDI_to_Composition and returned unconditionally: "
-                            "unbound for a file without a tempo event (the writer always emits one)", fm.where())
+    """A composition without tracks is written as a header that announces zero tracks; reading it back gives a
+    composition with no tracks (and some tempo), not an exception."""
+    R = "R-C17-5"
+    repo = ctx.repo
+    fm = repo.find_method(rci, "MIDI_to_Composition")
+    key = "%s.MidiFile.parse_midi_file" % MI
+    summ = {key: lambda it, a, k, n: ((1, 0, {"fps": False, "ticks_per_beat": 72}), [])}
+    try:
+        p = explore(interp_factory(repo, summ), lambda it: it.call_function(fm, [reader_obj(rci), "file.mid"], {}))
+    except CannotDecide as e:
+        raise AnalysisError("MIDI_to_Composition on a file without tracks: %s" % e)
+    ok = len(p) == 1 and p[0].kind == "return" and isinstance(p[0].value, tuple) and isinstance(p[0].value[0], AObj) \
+        and p[0].value[0].attrs.get("tracks") == []
+    ctx.check(ok, R, "no-tracks", fm.where(), "MIDI_to_Composition(<file of an empty composition>)",
+              "a file with zero tracks (what write_Composition writes for an empty composition) gives %s instead of a composition with no tracks: "
+              "the tempo is only assigned while reading a tempo event" % [(x.kind, short(repr(x.value), 60)) for x in p])
